@@ -14,6 +14,7 @@ determine the new values.
                                                               are inserted left and right of the kernel; same stride_w >= 4, IFM width
                                                               a multiple of the stride, same OFM depth
     stride_ge4_ifm_width       fixup_strided_conv             IFM width -> (resize factor, final stride) of calc_resize_factor
+                                                              (all SAME, all VALID, or all behind a PAD with small pads)
     kernel_larger_than_ifm     calc_padding_and_skirt,        IFM height / width below vs above the kernel size, SAME padding
                                fixup_strided_conv             (convolution, depthwise convolution, stride_w >= 4 with IFM width = stride)
     dilation_hw                fixup_dilation_gt2             (dilation_h, dilation_w), unequal and up to 8: software dilation factor x
@@ -209,7 +210,7 @@ def _ax_stride_ge4_ifm_width(f, idx, n_ops, o):
     ic = f.pick([1, 2, 3, 4, 8], [1, 2, 3, 4])
     oc = f.pick([8, 16, 24], [2, 4, 8])
     h = f.pick([4, 6, 8], [2, 3, 4]) + kh - 1
-    padding = rng.choice(["SAME", "SAME", "VALID"])
+    padding = rng.choice(["SAME", "SAME", "VALID", "PAD"])
     # widths: multiples of the stride (factor = stride, final stride 1), multiples of stride/2 or stride/3 only (final stride 2 / 3)
     part = [sw // x for x in (2, 3) if sw % x == 0 and sw // x > 1]
     cands = [sw * m for m in (2, 3, 4)] + [d * m for d in part for m in (3, 5, 7) if (d * m) % sw != 0]
@@ -218,7 +219,14 @@ def _ax_stride_ge4_ifm_width(f, idx, n_ops, o):
     wt = f.filt([oc, kh, kw, ic], oc, 0)
     bt = f.bias(wt, oc)
     for w in cands[:_n(f, n_ops)]:
-        f.conv(f.input([1, h, w, ic]), wt, bt, (1, sw), (1, 1), padding)
+        if padding == "PAD":
+            # the rewrite sees the padded width; small pads (a PAD that fits half of the FOLDED kernel is a candidate for
+            # replace_pad_by_hw_pad, which runs after the fold)
+            pl, pr = rng.choice([(1, 1), (2, 2), (0, 2), (1, 0), (2, 1), (0, 1)])
+            if w - pl - pr >= 1:
+                f.conv(f.input([1, h, w - pl - pr, ic]), wt, bt, (1, sw), (1, 1), "PAD", ((rng.randint(0, 1), rng.randint(0, 1)), (pl, pr)))
+                continue
+        f.conv(f.input([1, h, w, ic]), wt, bt, (1, sw), (1, 1), "VALID" if padding == "PAD" else padding)
 
 
 def _ax_kernel_larger_than_ifm(f, idx, n_ops, o):
@@ -294,13 +302,19 @@ def _ax_dw_mult(f, idx, n_ops, o):
     h, w = f.pick([6, 8, 9], [4, 5, 6]) + kh - 1, f.pick([6, 8, 12], [4, 6, 7]) + kw - 1
     wt = f.filt([1, kh, kw, c], c, 3)
     bt = f.bias(wt, c)
-    xc, x1 = f.input([1, h, w, c]), f.input([1, h, w, 1])
+    xs = {}
+
+    def x(depth):
+        if depth not in xs:
+            xs[depth] = f.input([1, h, w, depth])
+        return xs[depth]
+
     users = [("c", (1, 1)), ("1", (1, 1)), ("c", (2, 2)), ("1", (2, 2))][:_n(f, n_ops)]
     for who, s in _rot(users, idx):
         if who == "c":
-            f.dw(xc, wt, bt, s, (1, 1), "SAME", mult=1)
+            f.dw(x(c), wt, bt, s, (1, 1), "SAME", mult=1)
         else:
-            f.dw(x1, wt, bt, s, (1, 1), "SAME", mult=c)
+            f.dw(x(1), wt, bt, s, (1, 1), "SAME", mult=c)
 
 
 def _ax_dw_params(f, idx, n_ops, o):
@@ -333,17 +347,23 @@ def _ax_dw_vs_conv(f, idx, n_ops, o):
     h, w = f.pick([6, 8, 9], [4, 5, 6]) + kh - 1, f.pick([6, 8, 12], [4, 6, 7]) + kw - 1
     wt = f.filt([1, kh, kw, c], c, 3, per_channel=False)        # one scale: legal for the convolution (1 channel) and the depthwise
     b1, bc = f.bias(wt, 1), f.bias(wt, c)
-    xc, x1 = f.input([1, h, w, c]), f.input([1, h, w, 1])
+    xs = {}
+
+    def x(depth):
+        if depth not in xs:
+            xs[depth] = f.input([1, h, w, depth])
+        return xs[depth]
+
     users = ["conv", "dw", "dwmult", "conv_s2"][:_n(f, n_ops)]
     for u in _rot(users, idx):
         if u == "conv":
-            f.conv(xc, wt, b1, (1, 1), (1, 1), "SAME")
+            f.conv(x(c), wt, b1, (1, 1), (1, 1), "SAME")
         elif u == "conv_s2":
-            f.conv(xc, wt, b1, (2, 2), (1, 1), "VALID")
+            f.conv(x(c), wt, b1, (2, 2), (1, 1), "VALID")
         elif u == "dw":
-            f.dw(xc, wt, bc, (1, 1), (1, 1), "SAME", mult=1)
+            f.dw(x(c), wt, bc, (1, 1), (1, 1), "SAME", mult=1)
         else:
-            f.dw(x1, wt, bc, (1, 1), (1, 1), "SAME", mult=c)
+            f.dw(x(1), wt, bc, (1, 1), (1, 1), "SAME", mult=c)
 
 
 def _ax_fc_ifm_shape(f, idx, n_ops, o):
